@@ -13,6 +13,11 @@ import StreamzVerif.Model.Rolling
   {"op":"reset","model":"ewm","q":[1,2],["orig":true]}                                     -> {"ok":true}
       {"op":"batch","vals":[v,...]}           -> {"out":r,"old_wt":[num,den],"is_first":b}
       {"op":"whole","vals":[...]}             -> {"out":r}
+  {"op":"reset","model":"ewmnan","q":[1,2]}       NaN-aware EWMean (`ewmStepNan`) + pandas NaN spec (`ewmAtNan`)  -> {"ok":true}
+      {"op":"batch","vals":[v|null,...]}      -> {"out":f,"old_wt":[num,den],"is_first":b,"rows":n,"pandas":f}
+                                                 f = [] (empty frame) | [null] (a NaN row) | [[num,den]];
+                                                 "pandas" = the specification at the last of the rows seen so far
+      {"op":"whole","vals":[v|null,...]}      -> {"out":[r,...]}     (`ewmWholeNan`: the specification at every row)
 -/
 open Lean StreamzVerif StreamzVerif.Driver StreamzVerif.Rolling
 
@@ -23,6 +28,10 @@ def oratJ : Option Rat → Json
 def ointJ : Option Int → Json
   | none => Json.null
   | some v => toJson v
+/-- a one-row frame of one column: [] | [null] | [[num,den]] -/
+def frameJ : Option (Option Rat) → Json
+  | none => Json.arr #[]
+  | some c => Json.arr #[oratJ c]
 def rowJ (r : Row) : Json := Json.arr #[toJson r.t, ointJ r.v]
 
 def parseOInt (j : Json) : Option (Option Int) :=
@@ -66,6 +75,7 @@ inductive DSt
   | expMean (acc : Option (List (List (Option Rat)) × (Rat × Nat)))
   | expVar (ddof : Nat) (acc : Option (List (List (Option Rat)) × (Rat × Rat × Nat)))
   | ewm (q : Rat) (orig : Bool) (acc : Option (List (List Rat) × EwmSt))
+  | ewmNan (q : Rat) (acc : Option (List (List (Option Rat)) × EwmNanSt))
 
 def rollStepOf (w : Win) (agg : String) (q : Rat) : List Row → List Row → List Row × List (Option Rat) :=
   match w with
@@ -107,6 +117,10 @@ def step (st : DSt) (j : Json) : DSt × Json :=
     | some "ewm" =>
       match parseRat j "q" with
       | some q => (DSt.ewm q ((getBool j "orig").getD false) Option.none, ok)
+      | none => (st, badOp "q")
+    | some "ewmnan" =>
+      match parseRat j "q" with
+      | some q => (DSt.ewmNan q Option.none, ok)
       | none => (st, badOp "q")
     | _ => (st, badOp "model")
   | some "batch" =>
@@ -157,6 +171,16 @@ def step (st : DSt) (j : Json) : DSt × Json :=
           (DSt.ewm q orig r.1, Json.mkObj [("out", oratJ r.2), ("old_wt", ratJ s.oldWt), ("is_first", s.isFirst)])
         | Option.none => (st, badOp "ewm state")
       | Option.none => (st, badOp "vals")
+    | DSt.ewmNan q acc =>
+      match parseVals j "vals" with
+      | some vals =>
+        let r := ewmStepNan q acc (toRatCells vals)
+        match r.1 with
+        | some (dfs, s) =>
+          (DSt.ewmNan q r.1, Json.mkObj [("out", frameJ r.2), ("old_wt", ratJ s.oldWt), ("is_first", s.isFirst),
+            ("rows", toJson dfs.flatten.length), ("pandas", frameJ (ewmAtNan q dfs.flatten))])
+        | Option.none => (st, badOp "ewm state")
+      | Option.none => (st, badOp "vals")
     | DSt.none => (st, badOp "batch before reset")
   | some "whole" =>
     match st with
@@ -191,6 +215,11 @@ def step (st : DSt) (j : Json) : DSt × Json :=
     | DSt.ewm q _ _ =>
       match getIntList j "vals" with
       | some vals => (st, Json.mkObj [("out", oratJ (ewmAt q (vals.map (fun (x : Int) => (x : Rat)))))])
+      | Option.none => (st, badOp "vals")
+    | DSt.ewmNan q _ =>
+      match parseVals j "vals" with
+      | some vals =>
+        (st, Json.mkObj [("out", Json.arr ((ewmWholeNan q [] (toRatCells vals)).map (fun o => oratJ (o.getD Option.none))).toArray)])
       | Option.none => (st, badOp "vals")
     | DSt.none => (st, badOp "whole before reset")
   | _ => (st, badOp "op")
